@@ -2909,12 +2909,27 @@ class WorkflowGraph(object):
 
         top_level_folders = self.configuration.top_level_folders
 
+        import_stage = doc['stage']  # type: int
+
+        # VV: The components of the document carry stage indices that are RELATIVE to the stage of the importing
+        #     component, the stage-scoped variables are keyed by the index of the stage in the workflow. Hand
+        #     apply_replicate() the stage variables under the indices that the components of the document use, so that
+        #     the placeholders are replicated with the same variables as the looped components they stand for
+        #     (a DoWhile imported in stage 2 whose looped component has `replicate: "%(N)s"` with N defined in
+        #     variables.default.stages.2 used to read N from the variables of stage 0)
+        doc_variables = {
+            FlowIR.LabelGlobal: platform_variables.get(FlowIR.LabelGlobal, {}),
+            FlowIR.LabelStages: {
+                stage_idx - import_stage: stage_vars
+                for stage_idx, stage_vars in platform_variables.get(FlowIR.LabelStages, {}).items()
+                if stage_idx >= import_stage
+            }
+        }
+
         rep_placeholders = FlowIR.apply_replicate(
-            doc['components'], platform_variables, ignore_missing_references=True,
+            doc['components'], doc_variables, ignore_missing_references=True,
             application_dependencies=self.configuration.get_application_dependencies(),
             top_level_folders=top_level_folders)
-
-        import_stage = doc['stage']  # type: int
 
         # VV: Project names of component-placeholders to import_stage
         placeholder_ids = [(comp['stage'] + import_stage, comp['name']) for comp in rep_placeholders]
